@@ -538,6 +538,10 @@ class Interp:
                 return isinstance(v, (list, tuple))
             if c in ("numbers.Number",):
                 return is_native_number(v)
+            if c in ("numbers.Integral", "Integral"):
+                return (isinstance(v, int) and not isinstance(v, bool)) or isinstance(v, bool) or (isinstance(v, Rat) and _integer_valued(v))
+            if c in ("numbers.Real", "Real"):
+                return isinstance(v, (int, float, Fraction)) or (isinstance(v, Rat) and v.is_const())
             raise AnalysisError(f"isinstance against external {c}")
         if cls is None:
             return v is None
